@@ -246,7 +246,7 @@ def generate(rng, tier):
             es = [(u, v, w) for (u, v), w in zip(prs5, ws) if w]
             if es:
                 add("exhaustive-5-unweighted", es, rl=False)
-    rep = 10 if th else 3
+    rep = 16 if th else 3
     for _ in range(rep * 10):
         for st in W_STYLES:
             add("complete-5:" + st, g_complete(rng, 5, st))
